@@ -26,6 +26,10 @@ pub const CACHE_LINE_LENGTH: Index = CACHE_LINE_SIZE as Index;
 #[inline]
 /// Get system time since start of UNIX epoch in milliseconds (ms) (10^-3 sec)
 pub fn unix_time_ms() -> Moment {
+    #[cfg(unitedtraders_aeron_rs_verif)]
+    if let Some(t) = crate::verif_hook::clock_override() {
+        return t;
+    }
     let start = SystemTime::now();
     let since_the_epoch = start.duration_since(UNIX_EPOCH).expect("Can't get UNIX epoch.");
 
